@@ -8,6 +8,8 @@
 mod val;
 mod search;
 mod slice;
+mod lang;
+mod rgen;
 
 use serde_json::Value;
 use std::fs::{File, OpenOptions};
@@ -24,6 +26,7 @@ fn runner(engine: &str) -> Runner {
     match engine {
         "search" => search::run_case,
         "slice" => slice::run_case,
+        "lang" => lang::run_case,
         _ => die(&format!("unknown engine {}", engine)),
     }
 }
@@ -65,13 +68,29 @@ fn main() {
             }
             let seed: u64 = args[3].parse().unwrap_or(0);
             let n: usize = args[4].parse().unwrap_or(0);
+            let maxlen: i32 = std::env::var("GEN_MAXLEN").ok().and_then(|x| x.parse().ok()).unwrap_or(30);
             let mut out = std::io::BufWriter::new(File::create(&args[5]).unwrap_or_else(|e| die(&format!("create: {}", e))));
             let recs = match args[2].as_str() {
                 "slice" => slice::gen(seed, n),
+                "lang-toks" => rgen::gen_toks(seed, n, maxlen),
+                "lang-text" => rgen::gen_texts(seed, n, maxlen),
                 _ => die("unknown generator"),
             };
             for r in recs {
                 writeln!(out, "{}", serde_json::to_string(&r).unwrap()).unwrap();
+            }
+        }
+        "ast" => {
+            // debugging aid: driver ast '<expr>' ['<json doc>']
+            match jmespath::parse(&args[2]) {
+                Ok(a) => println!("{}", val::ast_to_json(&a, false)),
+                Err(e) => println!("ERR {}", e),
+            }
+            if args.len() > 3 {
+                let e = jmespath::compile(&args[2]);
+                if let Ok(e) = e {
+                    println!("{:?}", e.search(jmespath::Variable::from_json(&args[3]).unwrap()).map(|v| v.to_string()));
+                }
             }
         }
         _ => die("unknown command"),
